@@ -49,6 +49,53 @@ def run(repo, chk):
     rule_e(repo, chk)
     rule_f(repo, chk)
     rule_g(repo, chk)
+    rule_thread_marker(repo, chk)
+
+
+def rule_thread_marker(repo, chk):
+    """_fire links a new event to the handled one only when it is called from the loop's thread, which it recognises by a marker attribute: every place
+    of the Manager that runs handler code (the flush that invokes the dispatcher, the task stepping of tick()) must run with that marker set."""
+    chk.rule('C05.h', 'handler code — dispatching in _flush(), task steps in tick() — runs with the loop-thread marker that _fire consults set to the current '
+                      'thread, and the marker is restored on every exit')
+    fi = repo.func(MANAGER, 'Manager._fire')
+    markers = set()
+    for n in walk_no_defs(fi.node):
+        if isinstance(n, ast.Assign) and isinstance(n.value, ast.BoolOp) and isinstance(n.value.op, ast.Or):
+            attrs = [v.attr for v in n.value.values if isinstance(v, ast.Attribute) and src(v.value) == 'self' and v.attr.endswith('_thread')]
+            if len(attrs) == len(n.value.values):
+                markers |= set(attrs)
+    need(markers, 'C05.h: _fire does not identify the loop thread by marker attributes')
+    flushing = sorted(m for m in markers if 'flush' in m)
+    need(flushing, f'C05.h: no flushing marker among {sorted(markers)}')
+    mk = flushing[0]
+    n_sites = 0
+    for qual, callee in (('Manager._flush', '_dispatcher'), ('Manager.tick', 'processTask')):
+        f = repo.func(MANAGER, qual)
+        chk.touch(f)
+        g = f.cfg()
+        sites = [n for n in g.nodes if n.ast is not None and n.kind in ('stmt', 'for', 'test') and
+                 any((isinstance(c.func, ast.Attribute) and c.func.attr == callee and src(c.func.value) == 'self') or any(src(a) == f'self.{callee}' for a in c.args)
+                     for c in pat.node_calls(n))]
+        need(sites, f'C05.h: {qual} does not reach {callee}')
+        sets = [n for n in g.nodes if n.kind == 'stmt' and any(r == 'self' and a == mk and 'current_thread()' in src(v) for r, a, v in pat.attr_store(n.ast))]
+        others = [n for n in g.nodes if n.kind == 'stmt' and any(r == 'self' and a == mk for r, a, v in pat.attr_store(n.ast)) and n not in sets]
+        for s_ in sites:
+            n_sites += 1
+            p = Q.reachable_without(g, s_, avoid_node=lambda n: n in sets, weak=True)
+            chk.ob('h', f.ref, f'`{callee}` runs only after the loop-thread marker `{mk}` was set to the current thread', p is None and bool(sets), loc(f, s_.ast),
+                   path=pat.path_lines(p) if p else None, discr=f'marker-set:{callee}')
+            bad = None
+            for o in others:
+                q = Q.reachable_without(g, s_, start=o, avoid_node=lambda n: n in sets, weak=True)
+                if q is not None:
+                    bad = q
+            chk.ob('h', f.ref, f'the marker is not withdrawn before `{callee}` runs', bad is None, loc(f, s_.ast), path=pat.path_lines(bad) if bad else None,
+                   discr=f'marker-kept:{callee}')
+        for st in sets:
+            p = Q.escapes(g, [st], lambda n: n in others, exits=('exit', 'raise'), weak=True)
+            chk.ob('h', f.ref, 'the previous marker is restored on every exit, also an exceptional one', p is None and bool(others), loc(f, st.ast),
+                   path=pat.path_lines(p, st) if p else None, discr=f'marker-restored:{qual.split(".")[1]}')
+    need(n_sites >= 2, f'C05.h: {n_sites} handler-running sites, 2 confirmed by hand')
 
 
 def _accounting(n):
